@@ -60,6 +60,7 @@ type result struct {
 	ShrunkFrom int             `json:"shrunk_from"`
 	ShrunkRuns int             `json:"shrunk_runs"`
 	Panics     int             `json:"panics"`
+	Variant    string          `json:"variant"`
 }
 
 type job struct {
@@ -121,6 +122,9 @@ func init() {
 	for _, id := range []string{"C01", "C02", "C03", "C05"} {
 		addSpec(&propSpec{ID: id, Level: "exploration", QuickRuns: 1600, ThorRuns: 40000, QuickSecs: 75, ThorSecs: 900})
 	}
+	addSpec(&propSpec{ID: "C15", Level: "fault_enumeration", QuickRuns: 48, ThorRuns: 4000, QuickSecs: 75, ThorSecs: 900,
+		Assume: []string{"SQLite's own atomic commit is trusted: torn or lost page writes below SQLite are not simulated (the files live on the real file system / tmpfs)",
+			"a crash is modelled as: no driver call after the crash point reaches the database, open connections are closed without commit or rollback, both files are reopened"}})
 }
 
 func main() {
